@@ -1,4 +1,11 @@
 import Spine.Heap
+/-!
+# Kernel-checked witnesses for C04 and C11 on the store model (code as written, and the repaired members)
+
+Shape of `LoadControlLimitDataType`: fields limitId (key), isLimitChangeable (writecheck flag), isLimitActive,
+timePeriod, value; the selector has `limitId`; the elements struct has the same five fields.
+Every witness below is replayed on the real code by the corpus of `go/comp/heap_run_test.go` on every run.
+-/
 namespace Spine.Heap
 open Spine
 
@@ -6,28 +13,151 @@ def lc : Shape :=
   { n := 5, keys := [(0, .uint)], flag := some 1, selMap := [some 0], elN := 5, elMap := [some 0, some 1, some 2, some 3, some 4] }
 
 /-- fields: limitId, isLimitChangeable, isLimitActive, timePeriod, value -/
-def changeable0 : Item := [some 0, some 1, some 0, none, some 1]
-def fixed1 : Item := [some 1, some 0, some 0, none, some 2]
+def changeable0 : Item := [some 0, some 1, none, some 1, none]
+def fixed1 : Item := [some 1, some 0, none, some 2, none]
+def changeable1 : Item := [some 1, some 1, none, some 2, none]
+def changeable2 : Item := [some 2, some 1, none, some 0, none]
 
-/-- C04 (b) refuted: a partial remote write that addresses only the changeable limit 0 is rejected because the
-    unrelated limit 1 is not changeable -/
-theorem unaddressed_blocks_witness :
-    (match updateList lc true [changeable0, fixed1] [[some 0, none, some 1, none, none]] none none with
-     | .ok r => r.ok
-     | .panic _ => true) = false := by decide
+def aw : Cfg := .asWritten
+/-- the member with every candidate repair applied -/
+def repaired : Cfg :=
+  { fastpathRemote := false, u := { mergeStrict := false, selNilPanics := false, emptySelPanics := false, inplaceAltersFlag := false } }
 
-/-- C04 (c) refuted: an identifier-less remote write is rejected (error result) and yet applied to the changeable
-    limit, in the store -/
-theorem rejected_but_applied_witness :
-    let (h1, s) := full {} [changeable0, fixed1]
-    let (h2, r) := update lc h1 true true [[none, none, some 1, none, none]] none none
-    r = some false ∧ h2.readStruct s ≠ h1.readStruct s := by decide
+/-- a store holding `items` (set by the local application) -/
+def storeOf (items : List Item) : H := (full {} items).1
 
-/-- C04 (a) refuted: a filter-less remote write takes the replace path and overwrites the unchangeable limit and
-    its flag (the fast path does not look at `remoteWrite` at all, so `full` models it) -/
+/-- a remote write as `executeWrite` issues it (persisting) -/
+def remoteWrite (c : Cfg) (h : H) (nw : List Item) (fp fd : FArg) : H × UpdRes := updateData c lc h true true nw fp fd
+
+def selId (n : Nat) : Item := [some n]
+def selAll : Item := [none]
+def elValue : Item := [none, none, none, some 0, none]
+def elFlag : Item := [none, some 0, none, none, none]
+
+/-! ### C04 -/
+
+/-- C04a: a filter-less remote write takes the replace path: the unchangeable limit 1 is overwritten, its flag set -/
 theorem full_write_overwrites_witness :
-    let (h1, _) := full {} [changeable0, fixed1]
-    let (h2, s2) := full h1 [[some 1, some 1, some 1, none, some 9]]
-    h2.readStruct s2 = [[some 1, some 1, some 1, none, some 9]] := by decide
+    (remoteWrite aw (storeOf [changeable0, fixed1]) [[some 1, some 1, none, some 0, none]] .nil .nil).1.readStore
+      = [[some 1, some 1, none, some 0, none]] := by decide
+
+/-- … and is merged, the unchangeable limit protected, in the member with the fast path closed for remote writes -/
+theorem full_write_repaired_witness :
+    (remoteWrite repaired (storeOf [changeable0, fixed1]) [[some 1, some 1, none, some 0, none]] .nil .nil).1.readStore
+      = [changeable0, fixed1] := by decide
+
+/-- C04b (`Merge`): the partial remote write addresses only the changeable limit 0; it is rejected on
+    [changeable0, fixed1] and accepted on [changeable0, changeable1] — the two stores differ only in limit 1 -/
+theorem unaddressed_blocks_witness :
+    (remoteWrite aw (storeOf [changeable0, fixed1]) [[some 0, none, none, some 2, none]] .nodata .nil).2 = .done false 1 none ∧
+    (remoteWrite aw (storeOf [changeable0, changeable1]) [[some 0, none, none, some 2, none]] .nodata .nil).2 = .done true 1 (some 2) := by
+  decide
+
+/-- the repaired `Merge` accepts it on both -/
+theorem unaddressed_blocks_repaired_witness :
+    (remoteWrite repaired (storeOf [changeable0, fixed1]) [[some 0, none, none, some 2, none]] .nodata .nil).2 = .done true 1 (some 2) ∧
+    (remoteWrite repaired (storeOf [changeable0, fixed1]) [[some 0, none, none, some 2, none]] .nodata .nil).1.readStore
+      = [[some 0, some 1, none, some 2, none], fixed1] := by
+  decide
+
+/-- C04b (`deleteFilteredData`): deleting the changeable limit 0 by selector is rejected because of limit 1 -/
+theorem unaddressed_blocks_delete_witness :
+    (remoteWrite aw (storeOf [changeable0, fixed1]) [] .nil (.data ⟨some (selId 0), none⟩)).2 = .done false 1 none ∧
+    (remoteWrite aw (storeOf [changeable0, changeable1]) [] .nil (.data ⟨some (selId 0), none⟩)).2 = .done true 1 (some 2) := by
+  decide
+
+/-- C04c (`copyToAllData`): an identifier-less remote write is answered with an error and yet applied to limit 0 -/
+theorem rejected_but_applied_witness :
+    let r := remoteWrite aw (storeOf [changeable0, fixed1]) [[none, none, none, some 2, none]] .nodata .nil
+    r.2 = .done false 1 none ∧ r.1.readStore = [[some 0, some 1, none, some 2, none], fixed1] := by decide
+
+/-- C04c (`copyToSelectedData`): the empty selector matches both limits; the unchangeable one is skipped with an
+    error, the next one is written -/
+theorem rejected_but_applied_selector_witness :
+    let r := remoteWrite aw (storeOf [fixed1, changeable2]) [[none, none, none, some 2, none]] (.data ⟨some selAll, none⟩) .nil
+    r.2 = .done false 1 none ∧ r.1.readStore = [fixed1, [some 2, some 1, none, some 2, none]] := by decide
+
+/-- C04c (`deleteFilteredData` / `RemoveElementFromItem`): delete of an element of all limits: error, and the
+    element is gone from limit 0 -/
+theorem rejected_but_applied_delete_witness :
+    let r := remoteWrite aw (storeOf [changeable0, fixed1]) [] .nil (.data ⟨none, some elValue⟩)
+    r.2 = .done false 1 none ∧ r.1.readStore = [[some 0, some 1, none, none, none], fixed1] := by decide
+
+/-- clause 4: a partial remote write with an identifier that is not stored is answered with success and nothing
+    was applied (a remote write cannot add) -/
+theorem success_not_applied_witness :
+    let r := remoteWrite aw (storeOf [changeable0]) [[some 5, none, none, some 2, none]] .nodata .nil
+    r.2 = .done true 1 (some 2) ∧ r.1.readStore = [changeable0] := by decide
+
+/-- … and with an error in the repaired `Merge` -/
+theorem success_not_applied_repaired_witness :
+    (remoteWrite repaired (storeOf [changeable0]) [[some 5, none, none, some 2, none]] .nodata .nil).2 = .done false 1 none := by
+  decide
+
+/-- clause 1b: the flag of a changeable limit is altered by an identifier-less remote write that carries a flag, -/
+theorem flag_altered_all_witness :
+    let r := remoteWrite aw (storeOf [changeable0, changeable2]) [[none, some 0, none, none, none]] .nodata .nil
+    r.2 = .done true 1 (some 2) ∧ r.1.readStore.map (·.get 1) = [some 0, some 0] := by decide
+
+/-- … by a selector write that carries a flag, -/
+theorem flag_altered_selector_witness :
+    let r := remoteWrite aw (storeOf [changeable0, changeable2]) [[none, some 0, none, none, none]] (.data ⟨some (selId 0), none⟩) .nil
+    r.1.readStore.map (·.get 1) = [some 0, some 1] := by decide
+
+/-- … and by a delete filter whose elements name the flag -/
+theorem flag_altered_delete_witness :
+    let r := remoteWrite aw (storeOf [changeable0, changeable2]) [] .nil (.data ⟨some (selId 0), some elFlag⟩)
+    r.1.readStore.map (·.get 1) = [none, some 1] := by decide
+
+/-- the three writes above leave every flag alone in the member whose in-place paths put the flag back
+    (`patches/C04-flag-altered-candidate.patch`); the values they carry are applied -/
+theorem flag_altered_repaired_witness :
+    (remoteWrite repaired (storeOf [changeable0, changeable2]) [[none, some 0, none, some 2, none]] .nodata .nil).1.readStore
+      = [[some 0, some 1, none, some 2, none], [some 2, some 1, none, some 2, none]] ∧
+    (remoteWrite repaired (storeOf [changeable0, changeable2]) [[none, some 0, none, some 2, none]] (.data ⟨some (selId 0), none⟩) .nil).1.readStore
+      = [[some 0, some 1, none, some 2, none], changeable2] ∧
+    (remoteWrite repaired (storeOf [changeable0, changeable2]) [] .nil (.data ⟨some (selId 0), some [none, some 0, none, some 0, none]⟩)).1.readStore
+      = [[some 0, some 1, none, none, none], changeable2] := by decide
+
+/-! ### C11 -/
+
+/-- a snapshot taken with DataCopy changes when a later selector update is applied -/
+theorem snapshot_changes_witness :
+    let h1 := storeOf [changeable0, fixed1]
+    let h2 := (dataCopy h1).1
+    let h3 := (updateData aw lc h2 false true [[none, none, none, some 2, none]] (.data ⟨some (selId 0), none⟩) .nil).1
+    (dataCopy h1).2 = some 1 ∧ h2.readStruct 1 = [changeable0, fixed1] ∧
+      h3.readStruct 1 = [[some 0, some 1, none, some 2, none], fixed1] := by decide
+
+/-- … under a later identifier-less update -/
+theorem snapshot_changes_all_witness :
+    let h2 := (dataCopy (storeOf [changeable0, fixed1])).1
+    let h3 := (updateData aw lc h2 false true [[none, none, none, some 2, none]] .nodata .nil).1
+    h3.readStruct 1 = [[some 0, some 1, none, some 2, none], [some 1, some 0, none, some 2, none]] := by decide
+
+/-- … under a later delete with elements -/
+theorem snapshot_changes_delete_witness :
+    let h2 := (dataCopy (storeOf [changeable0, fixed1])).1
+    let h3 := (updateData aw lc h2 false true [] .nil (.data ⟨none, some elValue⟩)).1
+    h3.readStruct 1 = [[some 0, some 1, none, none, none], [some 1, some 0, none, none, none]] := by decide
+
+/-- the value handed to a filter-less update (struct 0 — also the event payload) is adopted by the store: a later
+    identifier-based partial update, which writes nothing in place, re-assigns its list -/
+theorem pointer_shared_witness :
+    let h1 := storeOf [changeable0, fixed1]
+    let h2 := (updateData aw lc h1 false true [changeable2] .nodata .nil).1
+    h1.readStruct 0 = [changeable0, fixed1] ∧ h2.readStruct 0 = [changeable0, fixed1, changeable2] := by decide
+
+/-- an update requested without persistence modifies the stored data -/
+theorem nonpersist_modifies_witness :
+    let h1 := storeOf [changeable0, fixed1]
+    let r := updateData aw lc h1 false false [[none, none, none, some 2, none]] .nil .nil
+    r.2 = .done true 1 (some 2) ∧ r.1.readStore ≠ h1.readStore := by decide
+
+/-- an update reported as failed modifies the stored data -/
+theorem failed_modifies_witness :
+    let h1 := storeOf [changeable0, fixed1]
+    let r := updateData aw lc h1 true true [[none, none, none, some 2, none]] .nodata .nil
+    r.2 = .done false 1 none ∧ r.1.readStore ≠ h1.readStore := by decide
 
 end Spine.Heap
